@@ -55,6 +55,11 @@ Definition block_timeout_error : Z := ERROR_SCAN_TIMEOUT.
 Definition block_index_init : Z := (0)%Z.
 Definition block_index_step : Z := (1)%Z.
 
+(* scanner.c yr_scanner_set_timeout(scanner, int timeout): `scanner->timeout = timeout * 1000000000ULL;` (uint64_t field, compared with yr_stopwatch_elapsed_ns in the block loop and in the VM); integer types and wrap-around explicit *)
+Definition timeout_param_max : Z := (2147483647)%Z.
+Definition timeout_ns (timeout : Z) : Z := (c_wrap_u 18446744073709551616 (c_wrap_u 18446744073709551616 ((c_wrap_u 18446744073709551616 timeout) * (c_wrap_u 18446744073709551616 1000000000)))).
+Definition timeout_ns_per_second : Z := (1000000000)%Z.
+
 (* scanner.c slow-scanning warning: visit test `scanner->matches->count OP SLOW` (matches[0]: the string with index 0), final test lo/hi *)
 Definition slow_visit_op : cmpop := CGe.
 Definition slow_limit : Z := YR_SLOW_STRING_MATCHES.
